@@ -255,7 +255,7 @@ fn lookup_case(ctx: &mut Ctx, z: u8, x: u64, y: u64) {
 
 pub fn run(ctx: &mut Ctx) {
     // ---- 1. exhaustive sweep over all ids of zooms 0..=L
-    let max_z: u8 = ctx.n(13, 15) as u8;
+    let max_z: u8 = ctx.n(13, 16) as u8;
     let total = R::zoom_base(max_z + 1);
     let chunk: u64 = 1 << 14;
     let nchunks = total.div_ceil(chunk);
@@ -276,7 +276,7 @@ pub fn run(ctx: &mut Ctx) {
     ctx.extra("exhaustive_ids", json!(total));
 
     // ---- 2. every zoom 0..=31: corners, edges, single-bit coordinates, random points
-    let nrand = ctx.n(3_000, 100_000);
+    let nrand = ctx.n(3_000, 300_000);
     for z in 0..=31u8 {
         if ctx.mine(case) {
             ctx.begin(case);
@@ -337,7 +337,7 @@ pub fn run(ctx: &mut Ctx) {
     case += 1;
 
     // ---- 4. lookups by coordinates, in and out of the grid
-    let per = ctx.n(12, 60);
+    let per = ctx.n(12, 400);
     for z in 0..=255u8 {
         if ctx.mine(case) {
             ctx.begin(case);
